@@ -1,0 +1,15 @@
+//go:build verif
+
+package consensus
+
+import (
+	"github.com/nspcc-dev/dbft"
+)
+
+// VerifSetTimer replaces dBFT timer of the given service with the provided one.
+// It exists only under the `verif` build tag and lets external verification
+// harnesses drive consensus timeouts deterministically. It must be called
+// before Start.
+func VerifSetTimer(s Service, t dbft.Timer) {
+	s.(*service).dbft.Timer = t
+}
